@@ -26,8 +26,11 @@ import (
 	nodestypes "github.com/pokt-network/pocket-core/x/nodes/types"
 	pckeeper "github.com/pokt-network/pocket-core/x/pocketcore/keeper"
 	pc "github.com/pokt-network/pocket-core/x/pocketcore/types"
+	amino "github.com/tendermint/go-amino"
 	abci "github.com/tendermint/tendermint/abci/types"
 	"github.com/tendermint/tendermint/libs/log"
+	tmstore "github.com/tendermint/tendermint/store"
+	tmtypes "github.com/tendermint/tendermint/types"
 	dbm "github.com/tendermint/tm-db"
 	"verifharness/internal/gen"
 )
@@ -206,47 +209,7 @@ func (w *world) one(t *gen.Trace, B, W, S, H, total int64) {
 	mature := try(func() string { return fmt.Sprint(w.k.ClaimIsMature(w.ctxAt(H), S)) })
 	// 3. which block seeds the leaf selection, and the selected leaf (ValidateProof at height P+1)
 	var asked []int64
-	idx := int64(-1)
-	nmatch := 0
-	proofRes := try(func() string {
-		pctx := recCtx{baseCtx: w.ctxAt(P + 1), asked: &asked}
-		stored := claim
-		stored.ExpirationHeight = P + 1000
-		if err := w.k.SetClaim(pctx, stored); err != nil {
-			return "setclaim-err"
-		}
-		defer func() { _ = w.k.DeleteClaim(pctx, nodeAddr, header, pc.RelayEvidence) }()
-		levels := ceilLog2(total)
-		hrs := make([]pc.HashRange, levels)
-		for i := range hrs {
-			hrs[i] = pc.HashRange{Hash: pc.Hash([]byte{byte(i)}), Range: pc.Range{Lower: 0, Upper: 7777}}
-		}
-		leaf := pc.RelayProof{SessionBlockHeight: S, ServicerPubKey: w.nodePub.RawString(), Blockchain: chain,
-			Token: pc.AAT{Version: "0.0.1", ApplicationPublicKey: w.appPub.RawString(), ClientPublicKey: w.appPub.RawString()}}
-		for ti := int64(0); ti < total; ti++ {
-			asked = asked[:0]
-			msg := pc.MsgProof{MerkleProof: pc.MerkleProof{TargetIndex: ti, HashRanges: hrs, Target: pc.HashRange{Hash: pc.Hash([]byte("t")), Range: pc.Range{Lower: 0, Upper: 7777}}},
-				Leaf: leaf, EvidenceType: pc.RelayEvidence}
-			code := try(func() string {
-				_, _, err := w.k.ValidateProof(pctx, msg)
-				if err == nil {
-					return "nil"
-				}
-				return fmt.Sprint(err.Code())
-			})
-			if code != fmt.Sprint(pc.CodeInvalidProofsError) {
-				nmatch++
-				idx = ti
-			}
-			if len(asked) != 1 {
-				return fmt.Sprintf("asked:%v", asked)
-			}
-		}
-		if nmatch != 1 {
-			return fmt.Sprintf("matches:%d", nmatch)
-		}
-		return "ok"
-	})
+	proofRes, idx := w.scanProof(w.ctxAt(P+1), &asked, claim, header, S, P, total)
 	req := int64(-1)
 	if len(asked) == 1 {
 		req = asked[0]
@@ -268,9 +231,191 @@ func (w *world) one(t *gen.Trace, B, W, S, H, total int64) {
 		seedHex = hex.EncodeToString(seed)
 		hash8 = hex.EncodeToString(pc.Hash(seed)[:8])
 	}
-	t.Line("win", claimRes == "ok", "win %d %d %d %d %d %s %s %s %s => %s %s %s %d %d %d %s",
+	// 4. the same proof path at the claim height H itself, in an honest world: the context cache holds only
+	// contexts of past heights and the block store has no block >= H (a proof sent right behind its claim)
+	earlyRes, earlyReq, earlyUsed, earlyIdx := "skip", int64(-1), int64(-1), int64(-1)
+	if H >= S && H >= 1 {
+		var easked []int64
+		ectx := w.earlyCtx(H, S)
+		earlyRes, earlyIdx = w.scanProof(ectx, &easked, claim, header, S, P, total)
+		if len(easked) >= 1 {
+			earlyReq = easked[len(easked)-1]
+		}
+		if earlyRes == "ok" {
+			got, _ := ectx.GetPrevBlockHash(earlyReq)
+			for b := lo - 2; b <= hi+2; b++ {
+				if hex.EncodeToString(blockHash(b)) == hex.EncodeToString(got) {
+					earlyUsed = b
+				}
+			}
+		}
+	}
+	t.Line("win", claimRes == "ok", "win %d %d %d %d %d %s %s %s %s => %s %s %s %d %d %d %s %d %d %d %s",
 		B, W, S, H, total, hex.EncodeToString(blockHash(usedBlock)), header.HashString(), seedHex, hash8,
-		claimRes, mature, strings.ReplaceAll(proofRes, " ", "_"), req, usedBlock, idx, "end")
+		claimRes, mature, strings.ReplaceAll(proofRes, " ", "_"), req, usedBlock, idx,
+		strings.ReplaceAll(earlyRes, " ", "_"), earlyReq, earlyUsed, earlyIdx, "end")
+}
+
+// scanProof stores the claim and runs the real ValidateProof at the given context with every target index.
+// "ok": exactly one index is not answered with InvalidProofs (that index is the selected leaf);
+// "unavail": every call fails with an internal error (the selecting block hash cannot be obtained).
+func (w *world) scanProof(base sdk.Context, asked *[]int64, claim pc.MsgClaim, header pc.SessionHeader, S, P, total int64) (string, int64) {
+	nodeAddr := sdk.Address(w.nodePub.Address())
+	idx := int64(-1)
+	res := try(func() string {
+		pctx := recCtx{baseCtx: base, asked: asked}
+		stored := claim
+		stored.ExpirationHeight = P + 1000
+		if err := w.k.SetClaim(pctx, stored); err != nil {
+			return "setclaim-err"
+		}
+		defer func() { _ = w.k.DeleteClaim(pctx, nodeAddr, header, pc.RelayEvidence) }()
+		levels := ceilLog2(total)
+		hrs := make([]pc.HashRange, levels)
+		for i := range hrs {
+			hrs[i] = pc.HashRange{Hash: pc.Hash([]byte{byte(i)}), Range: pc.Range{Lower: 0, Upper: 7777}}
+		}
+		leaf := pc.RelayProof{SessionBlockHeight: S, ServicerPubKey: w.nodePub.RawString(), Blockchain: chain,
+			Token: pc.AAT{Version: "0.0.1", ApplicationPublicKey: w.appPub.RawString(), ClientPublicKey: w.appPub.RawString()}}
+		nmatch, ninternal := 0, int64(0)
+		for ti := int64(0); ti < total; ti++ {
+			*asked = (*asked)[:0]
+			msg := pc.MsgProof{MerkleProof: pc.MerkleProof{TargetIndex: ti, HashRanges: hrs, Target: pc.HashRange{Hash: pc.Hash([]byte("t")), Range: pc.Range{Lower: 0, Upper: 7777}}},
+				Leaf: leaf, EvidenceType: pc.RelayEvidence}
+			code := try(func() string {
+				_, _, err := w.k.ValidateProof(pctx, msg)
+				if err == nil {
+					return "nil"
+				}
+				if err.Code() == sdk.CodeInternal {
+					return "internal"
+				}
+				return fmt.Sprint(err.Code())
+			})
+			if code == "internal" {
+				ninternal++
+				continue
+			}
+			if code != fmt.Sprint(pc.CodeInvalidProofsError) {
+				nmatch++
+				idx = ti
+			}
+			if len(*asked) != 1 {
+				return fmt.Sprintf("asked:%v", *asked)
+			}
+		}
+		if ninternal == total {
+			return "unavail"
+		}
+		if nmatch != 1 || ninternal != 0 {
+			return fmt.Sprintf("matches:%d,internal:%d", nmatch, ninternal)
+		}
+		return "ok"
+	})
+	return res, idx
+}
+
+// earlyCtx: a context at height H whose world is honest: the context cache knows past heights only and
+// the (real, empty) block store has no block at all, so nothing about heights > H can be looked up.
+func (w *world) earlyCtx(H, S int64) sdk.Context {
+	late := sdk.GlobalCtxCache
+	sdk.InitCtxCache(1024)
+	ctx := sdk.NewContext(w.base.MultiStore(), headerAt(H), false, log.NewNopLogger()).WithBlockStore(tmstore.NewBlockStore(dbm.NewMemDB()))
+	lo := S - 2
+	if lo < 1 {
+		lo = 1
+	}
+	for h := lo; h < H; h++ {
+		sdk.GlobalCtxCache.Add(fmt.Sprintf("%d", h), ctx.WithBlockHeader(headerAt(h)))
+	}
+	sdk.GlobalCtxCache = late
+	return ctx
+}
+
+// ---------------------------------------------------------------- GetPrevBlockHash on its own
+
+func around(h int64) []int64 {
+	var xs []int64
+	for d := int64(-12); d <= 4; d++ {
+		if d != 0 {
+			xs = append(xs, h+d)
+		}
+	}
+	return xs
+}
+
+var metaCdc = func() *amino.Codec { c := amino.NewCodec(); tmtypes.RegisterBlockAmino(c); return c }()
+
+func srcHash(src string, h int64) []byte { return pc.Hash([]byte(fmt.Sprintf("%s-%d", src, h))) }
+
+// gpbh: the real Context.GetPrevBlockHash over a real tendermint block store holding the block metas
+// of some past heights and a context cache holding the contexts of some past heights; every source
+// (own header / cached context / block store, LastBlockId hash or the ConsensusHash fallback) answers
+// with a hash of its own family so the answer tells where it came from.
+func gpbh(r *gen.R, t *gen.Trace) {
+	ctxH := int64(3 + r.Intn(60))
+	late := sdk.GlobalCtxCache
+	sdk.InitCtxCache(256)
+	db := dbm.NewMemDB()
+	var cached, stored, nils []string
+	isNil := map[string]bool{}
+	hdr := func(src string, h int64) abci.Header {
+		x := abci.Header{ChainID: "verif", Height: h, LastBlockId: abci.BlockID{Hash: srcHash(src, h-1)}, ConsensusHash: srcHash("cons-"+src, h)}
+		if r.Chance(1, 6) {
+			x.LastBlockId.Hash = nil
+			isNil[fmt.Sprintf("%s%d", src, h)] = true
+			nils = append(nils, fmt.Sprintf("%s%d", src, h))
+		}
+		return x
+	}
+	ctx := sdk.NewContext(nil, hdr("hdr", ctxH), false, log.NewNopLogger()).WithBlockStore(tmstore.NewBlockStore(db))
+	for h := ctxH - 6; h < ctxH; h++ {
+		if h < 1 {
+			continue
+		}
+		if r.Chance(1, 2) {
+			sdk.GlobalCtxCache.Add(fmt.Sprintf("%d", h), ctx.WithBlockHeader(hdr("cache", h)))
+			cached = append(cached, fmt.Sprint(h))
+		}
+		if r.Chance(2, 3) {
+			ah := hdr("store", h)
+			meta := tmtypes.BlockMeta{Header: tmtypes.Header{ChainID: "verif", Height: h,
+				LastBlockID: tmtypes.BlockID{Hash: ah.LastBlockId.Hash}, ConsensusHash: ah.ConsensusHash}}
+			db.Set([]byte(fmt.Sprintf("H:%v", h)), metaCdc.MustMarshalBinaryBare(&meta))
+			stored = append(stored, fmt.Sprint(h))
+		}
+	}
+	sdk.GlobalCtxCache = late
+	join := func(xs []string) string {
+		if len(xs) == 0 {
+			return "-"
+		}
+		return strings.Join(xs, ",")
+	}
+	for h := ctxH - 7; h <= ctxH+4; h++ {
+		if h < 1 {
+			continue
+		}
+		res := try(func() string {
+			got, err := ctx.GetPrevBlockHash(h)
+			if err != nil {
+				return "err"
+			}
+			// whose hash is it? (normally block h-1 from the source that answered; any other block is named too)
+			for _, x := range append([]int64{h}, around(h)...) {
+				for _, src := range []string{"hdr", "cache", "store"} {
+					if hex.EncodeToString(got) == hex.EncodeToString(srcHash(src, x-1)) {
+						return fmt.Sprintf("%s:%d", src, x-1)
+					}
+					if hex.EncodeToString(got) == hex.EncodeToString(srcHash("cons-"+src, x)) {
+						return fmt.Sprintf("cons-%s:%d", src, x)
+					}
+				}
+			}
+			return "unknown-hash"
+		})
+		t.Line("gpbh", res != "err", "gpbh %d %d %s %s %s => %s", ctxH, h, join(cached), join(stored), join(nils), res)
+	}
 }
 
 func main() {
@@ -282,6 +427,10 @@ func main() {
 	t := gen.NewTrace(*out)
 	w := setup(r)
 	for t.Lines < *n {
+		if r.Chance(1, 6) {
+			gpbh(r, t)
+			continue
+		}
 		B := int64(1 + r.Intn(6))
 		if r.Chance(1, 5) {
 			B = 4 // mainnet
